@@ -656,6 +656,13 @@ class SyncInterpreter(BaseInterpreter[TContext, TEvent]):
                 state.entry,
                 event if event is not None else Event(f"entry.{state.id}"),
             )
+            # ⚙️ Schedule this state's tasks (invokes, timers) right after
+            #    its entry actions and BEFORE descending, as the async engine
+            #    does. Scheduling after the recursive descent started a
+            #    child's invoked service before its parent's, so the two
+            #    engines delivered the same done.invoke events in a different
+            #    order for the same machine.
+            self._schedule_state_tasks(state)
 
             # 🏁 Handle final state logic by firing a `done` event if applicable.
             if state.type == "final":
@@ -670,7 +677,6 @@ class SyncInterpreter(BaseInterpreter[TContext, TEvent]):
                 # ⏭️ Skip the default descent when the entry path already
                 #    specifies which child of this state to enter.
                 if state.id in explicit_children:
-                    self._schedule_state_tasks(state)
                     logger.debug(
                         "✅ State '%s' entered successfully.", state.id
                     )
@@ -720,8 +726,6 @@ class SyncInterpreter(BaseInterpreter[TContext, TEvent]):
                 if regions:
                     self._enter_states(regions, event)
 
-            # ⚙️ Schedule any tasks (invokes, timers).
-            self._schedule_state_tasks(state)
             logger.debug("✅ State '%s' entered successfully.", state.id)
 
     def _exit_states(
